@@ -308,6 +308,35 @@ func c13ImageMutants(c *Ctx, img []byte, emit func(class string, b []byte)) {
 		for _, v := range []uint32{0, 1, 7, 8, 9, uint32(len(t)), uint32(len(t) + 1), 0x7fffffff, 0xffffffff} {
 			emit("wincert-dwLength", set32(va, v))
 		}
+		// entries of OTHER certificate types (WIN_CERT_TYPE_EFI_GUID 0x0EF1, X.509 0x0001, 0, 0xffff - the table may
+		// hold them next to PKCS#7 entries) in every place of the table: the first entry retyped, a foreign entry in
+		// front of and behind the genuine ones, with dwLength swept over the small values, the table length and its
+		// neighbours, and the top of the 32-bit range (2^32-16 .. 2^32-1, where rounding up to 8 wraps around)
+		top := []uint32{0xfffffff0, 0xfffffff7, 0xfffffff8, 0xfffffff9, 0xfffffffa, 0xfffffffc, 0xfffffffe, 0xffffffff}
+		for ti, typ := range []uint16{0x0EF1, 0x0001, 0x0000, 0xffff, 0x0002} {
+			lens := append([]uint32{0, 7, 8, 9, 16, uint32(len(t) - 8), uint32(len(t) - 1), uint32(len(t)), uint32(len(t) + 1), uint32(len(t) + 8), 0x7ffffff9, 0x80000000}, top...)
+			for vi, v := range lens {
+				if typ != 0x0002 {
+					m := set32(va, v)
+					binary.LittleEndian.PutUint16(m[va+6:], typ)
+					emit("wincert-type-x-dwLength/first-entry", m)
+				}
+				if va+len(t) != len(img) || (!c.Thorough && (vi+ti)%2 == 0 && v < 0xfffffff0) {
+					continue
+				}
+				// a 16-byte foreign entry (header + 8 bytes) declaring v, in front of / behind the table's own entries
+				fe := mkWinCert(v, 0x0200, typ, []byte("foreign!"))
+				for _, front := range []bool{true, false} {
+					nt := append(append([]byte{}, t...), fe...)
+					if front {
+						nt = append(append([]byte{}, fe...), t...)
+					}
+					m := append(append([]byte{}, img[:va]...), nt...)
+					binary.LittleEndian.PutUint32(m[dd+4:], uint32(len(nt)))
+					emit(fmt.Sprintf("wincert-type-x-dwLength/foreign-entry-front=%v", front), m)
+				}
+			}
+		}
 		// a table that is still the tail of the file but ends early: the file cut by 1..9, 15, 16, 17 bytes (inside
 		// the padding behind the last entry, inside the entry) with the directory size lowered to match, so that
 		// Parse's "the table is the tail of the file" check is met
@@ -894,6 +923,10 @@ func c13Gen(c *Ctx) {
 			}
 			sd := p7Seed{name: "image-signature", blob: si.sig, right: cert, twin: makeRSACert(k1, shapes[0]), other: makeRSACert(k1, shapes[1])}
 			inTable := func(class string, b []byte) { emit("pe.all", "table-entry/"+class, withTable(si.img, winCert(b))) }
+			// the signed image verified with certificates its signature names whose key is not an RSA key
+			for _, kind := range []string{"ecdsa", "ed25519"} {
+				c13Eval(c, Case{"op": "untrusted", "ep": "pe.all", "class": "valid/named-" + kind + "-cert", "cert": hx(nonRSATwin(cert, kind).Raw), "b": hx(si.img)})
+			}
 			forgeries(c, sd, inTable)
 			p7OptionalFields(c, si.sig, i, c.P(2, 1), false, inTable)
 			p7SignerIdentifierForms(si.sig, subjectKeyID(cert), inTable)
@@ -982,6 +1015,22 @@ func c13Gen(c *Ctx) {
 			}
 		}
 		emitP7("valid", s.blob)
+		// ... and with certificates the blob NAMES (issuer and serial number of its signer entry, public information)
+		// whose public key is not an RSA key: the caller's trusted certificate may hold any kind of key
+		if s.right != nil {
+			for _, kind := range []string{"ecdsa", "ed25519"} {
+				tw := nonRSATwin(s.right, kind)
+				for _, v := range [][2]interface{}{{"valid", s.blob}} {
+					c13Eval(c, Case{"op": "untrusted", "ep": "p7.all", "class": v[0].(string) + "/named-" + kind + "-cert", "cert": hx(tw.Raw), "b": hx(v[1].([]byte))})
+				}
+				n := 0
+				forgeries(c, s, func(class string, b []byte) {
+					if n++; c.Thorough || n%7 == 0 {
+						c13Eval(c, Case{"op": "untrusted", "ep": "p7.all", "class": class + "/named-" + kind + "-cert", "cert": hx(tw.Raw), "b": hx(b)})
+					}
+				})
+			}
+		}
 		forgeries(c, s, func(class string, b []byte) { emitP7(class, b) })
 		// quick: a rotating quarter of the contents per blob (all of them for every ninth), element tails for every ninth
 		p7OptionalFields(c, s.blob, i/3, map[bool]int{true: 1, false: c.P(4, 1)}[i%27 == 0], c.Thorough || i%27 == 0, emitP7)
@@ -1050,7 +1099,7 @@ func c13Gen(c *Ctx) {
 
 func init() {
 	register("C13", &PropDef{
-		Rule:   "image entry points (Parse, Signatures, Hash, Bytes, Verify) and signature entry points (ParsePKCS7, ParseAuthenticode, both Verifys) in a sandboxed worker process (address-space limit, per-input timeout, TotalAlloc delta). Images: repository binaries, generated signed images and a generated image with two section headers that declare raw data without a file pointer (PointerToRawData = 0), under sweeps of e_lfanew, SizeOfOptionalHeader, NumberOfSections, NumberOfRvaAndSizes, SizeOfHeaders, section offsets/sizes (incl. overlap, 2^31, 2^32-1), certificate directory address/size beyond the file, WIN_CERTIFICATE dwLength (<8, huge), the file cut by 1..17 bytes (and down to 1, 8, 9 bytes of table) with the directory size lowered to match (a table that ends inside the padding of its last entry or inside the entry), every ~2% truncation point, random header bytes; the section sweeps cover the first three and the last section header (raw data at / beyond the end of the file included). Signatures inside the certificate table: two signed generated images with their own signature replaced by each derived blob - the targeted forgeries (every object identifier outside the certificates, among them the digest algorithm of the SpcIndirectDataContent DigestInfo, replaced by each of seven siblings (SHA-1/384/512, ...) alone and with a content change; dropped signed attributes; several signer entries; blobs nested inside blobs), the optional fields below, and a fifth of the generic mutations - parsed, listed, hashed (SHA-256 and SHA-1/384/512), re-serialised and verified through PECOFFBinary.Verify with the certificate of the signer. WIN_CERTIFICATEs (certificate-table entries of the signed images, signature blobs in a fresh wrapper, an empty and a GUID-typed one) are read by ReadWinCertificate through 8 kinds of io.Reader (bytes.Reader, bytes.Buffer, bufio.Reader, io.SectionReader, an open os.File, io.Pipe, a reader with no method but Read, a one-byte reader) with dwLength in {0,1,7,8,9,n-1,n,n+1,n+8,2n,2^16,2^20,2^24,2^28,2^31-1,2^31,2^32-8,2^32-1} over the full body and over 0..16 bytes of body, truncations and wrong revisions; the same time/memory oracle, and the decoded fields are compared with the Lean model of the reader for every kind. Signatures: library/fixture/CMS-shaped blobs under bit flips, per-leaf flips, structural DER edits, targeted forgeries (incl. dropped signed attributes, two-signer-entry combinations, and blobs nested inside blobs: unsigned attributes, certificates, CRLs, content, signer entries, trailing fields), oversized and truncated lengths; the OPTIONAL fields of the syntax that the library never writes (unauthenticatedAttributes [1] at the end of every signer entry, crls [1]) holding nothing / a well-formed attribute / ill-shaped readable elements / 200 empty attributes / bytes that are no DER element at all (truncated element, lone zero byte, lone tag, length beyond the input, indefinite and non-minimal length, high tag number, readable then truncated; alone and behind a well-formed attribute) - quick: a rotating quarter of these contents per blob, all of them for every ninth blob; and the same unreadable bytes behind the last child of every constructed element outside the certificates (every ninth blob; thorough: every blob, inside the certificates too); every signer entry's version field set to each CMSVersion value 0..5 crossed with each form of its signer identifier (issuerAndSerialNumber as it is, the [0] subjectKeyIdentifier alternative of RFC 5652 5.3 holding the key identifier of the verifying certificate or nothing, the same tag in constructed form, no identifier at all) - for the signature blobs and, inside the certificate table of the signed images, through PECOFFBinary.Verify; each verified with the certificate its signer entry names and, for a quarter, with a stranger's. Section tables whose declared sizes add up to a multiple of 2^31 / 2^32, with one header less, exactly, and one more (2047..2049, 4095..4097 and 8191..8193 headers naming the same 1 MiB of a file of 1 MiB plus headers, 16383..16385 x 256 KiB; thorough also 128 KiB, 512 KiB and 2 MiB ranges and 3 x and 15 x 2^32), built from their description: the sum is, in the 32-bit width of the header fields, no more than the file holds, and the time / memory oracle applies as to every input (Parse rejects, or the hashed stream stays proportional to the file). The SpcPeImageData of the signature (flags, SpcLink): one generated image [thorough: four] signed - by the library's own PKCS#7 signer, over a content built in the harness with the image's digest, so that the signature verifies - once for each form of the SpcLink: file/unicode (BMPString) of 0, 1, 2, 3, 27, 28, 29, 300 bytes, file/ascii and url of 0, 1, 3, 27, 29, 300 bytes, moniker with 0..3 bytes of serialised data and without its fields, an empty file alternative, unknown alternatives at both levels, no link at all, inside the [0] wrapper signers emit and (every third) without it, with the flags as the library writes them / with unused bits / left out; each signed image goes through the image entry points with the signer's certificate and each signature alone through ParsePKCS7, ParseAuthenticode and both Verifys. Size scaling of the image entry points (class many-signatures, built from a description: the case holds the small image, the signature and two numbers): a generated image followed by 4.5 MiB of trailing data whose certificate table holds the harness key's signature 1000 times (6 MB) and the repository image test.pecoff followed by 16 MiB with 5000 entries (23 MB) [thorough: also 1 MiB / 250, 2 MiB / 500, 8 MiB / 2000, 11 MiB / 8000, 20 MiB / 2500 entries], each entry padded to 8, directory size to match, the table the tail of the file - parsed, listed, hashed, re-serialised and verified with the signer's certificate (the first entry decides; the answer must be true) and with a stranger's (every entry answers \"not this certificate\", all n are looked at; the answer must be \"no valid signature\"): the absolute limits, cut off after twice the time limit (reported as \"did not finish\", matcher c13.time), and for the stranger's certificate a relative one that does not depend on the machine: the file may take at most 8 x the time of its two parts on their own (the same image with ONE entry + the same n entries behind the image without the trailing data, signed by the same key) + 0.1 s, best of 3 runs - work proportional to the input is additive over that split, the image hashed once per entry (F38) is their product. Non-trivial: non-empty input; distinct = distinct inputs.",
+		Rule:   "image entry points (Parse, Signatures, Hash, Bytes, Verify) and signature entry points (ParsePKCS7, ParseAuthenticode, both Verifys) in a sandboxed worker process (address-space limit, per-input timeout, TotalAlloc delta). Images: repository binaries, generated signed images and a generated image with two section headers that declare raw data without a file pointer (PointerToRawData = 0), under sweeps of e_lfanew, SizeOfOptionalHeader, NumberOfSections, NumberOfRvaAndSizes, SizeOfHeaders, section offsets/sizes (incl. overlap, 2^31, 2^32-1), certificate directory address/size beyond the file, WIN_CERTIFICATE dwLength (<8, huge), certificate-table entries of OTHER certificate types (0x0EF1 EFI_GUID, 0x0001 X.509, 0, 0xffff; and type 2 for the added entries) x dwLength in {0,7,8,9,16, table length -8/-1/+0/+1/+8, 2^31-7, 2^31, 2^32-16, 2^32-9 .. 2^32-1 (rounding up to 8 wraps around in 32 bits)}: the first entry of the table retyped, and a 16-byte entry of that type and declared length placed in front of and behind the table's own entries with the directory size to match (quick: every second small length, all the lengths at the top of the range), the file cut by 1..17 bytes (and down to 1, 8, 9 bytes of table) with the directory size lowered to match (a table that ends inside the padding of its last entry or inside the entry), every ~2% truncation point, random header bytes; the section sweeps cover the first three and the last section header (raw data at / beyond the end of the file included). Signatures inside the certificate table: two signed generated images with their own signature replaced by each derived blob - the targeted forgeries (every object identifier outside the certificates, among them the digest algorithm of the SpcIndirectDataContent DigestInfo, replaced by each of seven siblings (SHA-1/384/512, ...) alone and with a content change; dropped signed attributes; several signer entries; blobs nested inside blobs), the optional fields below, and a fifth of the generic mutations - parsed, listed, hashed (SHA-256 and SHA-1/384/512), re-serialised and verified through PECOFFBinary.Verify with the certificate of the signer. WIN_CERTIFICATEs (certificate-table entries of the signed images, signature blobs in a fresh wrapper, an empty and a GUID-typed one) are read by ReadWinCertificate through 8 kinds of io.Reader (bytes.Reader, bytes.Buffer, bufio.Reader, io.SectionReader, an open os.File, io.Pipe, a reader with no method but Read, a one-byte reader) with dwLength in {0,1,7,8,9,n-1,n,n+1,n+8,2n,2^16,2^20,2^24,2^28,2^31-1,2^31,2^32-8,2^32-1} over the full body and over 0..16 bytes of body, truncations and wrong revisions; the same time/memory oracle, and the decoded fields are compared with the Lean model of the reader for every kind. Signatures: library/fixture/CMS-shaped blobs under bit flips, per-leaf flips, structural DER edits, targeted forgeries (incl. dropped signed attributes, two-signer-entry combinations, and blobs nested inside blobs: unsigned attributes, certificates, CRLs, content, signer entries, trailing fields), oversized and truncated lengths; the OPTIONAL fields of the syntax that the library never writes (unauthenticatedAttributes [1] at the end of every signer entry, crls [1]) holding nothing / a well-formed attribute / ill-shaped readable elements / 200 empty attributes / bytes that are no DER element at all (truncated element, lone zero byte, lone tag, length beyond the input, indefinite and non-minimal length, high tag number, readable then truncated; alone and behind a well-formed attribute) - quick: a rotating quarter of these contents per blob, all of them for every ninth blob; and the same unreadable bytes behind the last child of every constructed element outside the certificates (every ninth blob; thorough: every blob, inside the certificates too); every signer entry's version field set to each CMSVersion value 0..5 crossed with each form of its signer identifier (issuerAndSerialNumber as it is, the [0] subjectKeyIdentifier alternative of RFC 5652 5.3 holding the key identifier of the verifying certificate or nothing, the same tag in constructed form, no identifier at all) - for the signature blobs and, inside the certificate table of the signed images, through PECOFFBinary.Verify; each verified with the certificate its signer entry names and, for a quarter, with a stranger's. VERIFYING CERTIFICATES WITH OTHER KEY KINDS: every valid signature blob and a seventh of its targeted forgeries (thorough: all), and the signed generated images through PECOFFBinary.Verify, are also verified with certificates that the signature NAMES - the issuer name and serial number of its signer entry - whose public key is an ECDSA P-256 or an Ed25519 key (the trusted certificate is the caller's and may hold any kind of key; the name and serial are public): an error or false, never a panic. Section tables whose declared sizes add up to a multiple of 2^31 / 2^32, with one header less, exactly, and one more (2047..2049, 4095..4097 and 8191..8193 headers naming the same 1 MiB of a file of 1 MiB plus headers, 16383..16385 x 256 KiB; thorough also 128 KiB, 512 KiB and 2 MiB ranges and 3 x and 15 x 2^32), built from their description: the sum is, in the 32-bit width of the header fields, no more than the file holds, and the time / memory oracle applies as to every input (Parse rejects, or the hashed stream stays proportional to the file). The SpcPeImageData of the signature (flags, SpcLink): one generated image [thorough: four] signed - by the library's own PKCS#7 signer, over a content built in the harness with the image's digest, so that the signature verifies - once for each form of the SpcLink: file/unicode (BMPString) of 0, 1, 2, 3, 27, 28, 29, 300 bytes, file/ascii and url of 0, 1, 3, 27, 29, 300 bytes, moniker with 0..3 bytes of serialised data and without its fields, an empty file alternative, unknown alternatives at both levels, no link at all, inside the [0] wrapper signers emit and (every third) without it, with the flags as the library writes them / with unused bits / left out; each signed image goes through the image entry points with the signer's certificate and each signature alone through ParsePKCS7, ParseAuthenticode and both Verifys. Size scaling of the image entry points (class many-signatures, built from a description: the case holds the small image, the signature and two numbers): a generated image followed by 4.5 MiB of trailing data whose certificate table holds the harness key's signature 1000 times (6 MB) and the repository image test.pecoff followed by 16 MiB with 5000 entries (23 MB) [thorough: also 1 MiB / 250, 2 MiB / 500, 8 MiB / 2000, 11 MiB / 8000, 20 MiB / 2500 entries], each entry padded to 8, directory size to match, the table the tail of the file - parsed, listed, hashed, re-serialised and verified with the signer's certificate (the first entry decides; the answer must be true) and with a stranger's (every entry answers \"not this certificate\", all n are looked at; the answer must be \"no valid signature\"): the absolute limits, cut off after twice the time limit (reported as \"did not finish\", matcher c13.time), and for the stranger's certificate a relative one that does not depend on the machine: the file may take at most 8 x the time of its two parts on their own (the same image with ONE entry + the same n entries behind the image without the trailing data, signed by the same key) + 0.1 s, best of 3 runs - work proportional to the input is additive over that split, the image hashed once per entry (F38) is their product. Non-trivial: non-empty input; distinct = distinct inputs.",
 		Assume: []string{"allocation budget 64 bytes per input byte + 4 MiB; time limit 0.5 s + 1 µs per input byte; an input that got no answer after ten times its limit (at least 5 s) is reported as hanging and the worker is killed; after 3 such inputs the rest of the run is not executed (class not-run-after-timeouts)", "the large files with many signatures: the same limits, no answer after twice the time limit (+ 5 s for handing the file over) = did not finish; whole file <= 8 x (image with one entry + all entries behind the short image) + 0.1 s, best of 3", "wall-clock time and resident memory are runtime facts measured on the sampled inputs only"},
 		Eval:   c13Eval, Gen: c13Gen,
 	})
